@@ -738,6 +738,34 @@ fn check_fri_challenge_count(
     Ok(())
 }
 
+/// Computes the log height of the largest FRI codeword,
+/// `sum(log_arities) + log_final_poly_len + log_blowup`.
+///
+/// The arities come from the proof and the other two terms from the verifier parameters, so the
+/// sum is computed with checked arithmetic. It must not exceed the number of bits that can be
+/// sampled from one base field element, since it is the number of query index bits.
+fn fri_log_max_height<F: PrimeField64>(
+    log_arities: &[usize],
+    log_final_poly_len: usize,
+    log_blowup: usize,
+) -> Result<usize, VerificationError> {
+    let max_query_index_bits = F::bits();
+    log_arities
+        .iter()
+        .try_fold(log_final_poly_len, |acc, &log_arity| {
+            acc.checked_add(log_arity)
+        })
+        .and_then(|acc| acc.checked_add(log_blowup))
+        .filter(|&log_max_height| log_max_height <= max_query_index_bits)
+        .ok_or_else(|| {
+            VerificationError::InvalidProofShape(format!(
+                "log_max_height (log_arities {log_arities:?} + log_final_poly_len \
+                 {log_final_poly_len} + log_blowup {log_blowup}) exceeds base field bit width \
+                 {max_query_index_bits}"
+            ))
+        })
+}
+
 // Implement `RecursivePcs` for `TwoAdicFriPcs`.
 impl<SC, Dft, Comm, InputMmcs, RecursiveInputMmcs, RecursiveFriMmcs, FriMmcs>
     RecursivePcs<
@@ -871,15 +899,11 @@ where
         let alpha = challenges[0];
         let betas = &challenges[1..1 + num_betas];
 
-        let total_log_reduction: usize = opening_proof.log_arities.iter().sum();
-        let log_max_height = total_log_reduction + log_final_poly_len + log_blowup;
-
-        let max_query_index_bits = Val::<SC>::bits();
-        if log_max_height > max_query_index_bits {
-            return Err(VerificationError::InvalidProofShape(format!(
-                "log_max_height {log_max_height} exceeds base field bit width {max_query_index_bits}"
-            )));
-        }
+        let log_max_height = fri_log_max_height::<Val<SC>>(
+            &opening_proof.log_arities,
+            log_final_poly_len,
+            log_blowup,
+        )?;
 
         let index_bits_per_query: Vec<Vec<Target>> = (0..num_queries)
             .map(|_| challenger.sample_bits(circuit, log_max_height))
@@ -1276,15 +1300,8 @@ where
         let alpha = challenges[0];
         let betas = &challenges[1..1 + num_betas];
 
-        let total_log_reduction: usize = fri_proof.log_arities.iter().sum();
-        let log_max_height = total_log_reduction + log_final_poly_len + log_blowup;
-
-        let max_query_index_bits = Val::<SC>::bits();
-        if log_max_height > max_query_index_bits {
-            return Err(VerificationError::InvalidProofShape(format!(
-                "log_max_height {log_max_height} exceeds base field bit width {max_query_index_bits}"
-            )));
-        }
+        let log_max_height =
+            fri_log_max_height::<Val<SC>>(&fri_proof.log_arities, log_final_poly_len, log_blowup)?;
 
         let index_bits_per_query: Vec<Vec<Target>> = (0..num_queries)
             .map(|_| challenger.sample_bits(circuit, log_max_height))
